@@ -252,7 +252,7 @@ pub fn run_c08(tier: Tier, seed: u64, index: u64, scratch: &Scratch, rec: &mut R
         (ExitSpec::Code(0), true),
     ];
     let n_insp = base.root.layout.inspect.len();
-    let fileops = if tier == Tier::Quick { 2 } else { 6 };
+    let fileops = if tier == Tier::Quick { 2 } else { 7 };
     // an extra "stage": the inspection of a delegated level fails while the delegating step has
     // surplus evidence (another functionary's plain link and a threshold that one link meets)
     {
@@ -296,7 +296,7 @@ pub fn run_c08(tier: Tier, seed: u64, index: u64, scratch: &Scratch, rec: &mut R
         }
         for (exit, noutf8) in outcomes {
             for fo in 0..fileops {
-                let fo = (fo + r.idx(6)) % 6;
+                let fo = (fo + r.idx(7)) % 7;
                 let mut t = staged.clone();
                 let which = r.idx(n_insp.max(1));
                 let ops = match fo {
@@ -305,6 +305,7 @@ pub fn run_c08(tier: Tier, seed: u64, index: u64, scratch: &Scratch, rec: &mut R
                     2 => vec![FsOp::Append { path: "pre-existing".into(), content: "modified".into() }],
                     4 => vec![],
                     5 => vec![],
+                    6 => vec![FsOp::Write { path: "forbidden".into(), content: "x".into() }],
                     _ => vec![FsOp::Remove { path: "pre-existing".into() }, FsOp::Write { path: "forbidden".into(), content: "x".into() }],
                 };
                 if fo >= 2 {
@@ -331,7 +332,13 @@ pub fn run_c08(tier: Tier, seed: u64, index: u64, scratch: &Scratch, rec: &mut R
                         }
                     }
                 }
-                set_actor(&mut t, if fo == 4 { 0 } else { which }, exit.clone(), ops, *noutf8);
+                if fo == 6 {
+                    // the first inspection bears the name of a step; it creates a file its rules forbid
+                    if let (Some(st), Some(i)) = (t.root.layout.steps.get(r.idx(t.root.layout.steps.len().max(1))).map(|s| s.name.clone()), t.root.layout.inspect.get_mut(0)) {
+                        i.name = st;
+                    }
+                }
+                set_actor(&mut t, if fo == 4 || fo == 6 { 0 } else { which }, exit.clone(), ops, *noutf8);
                 t.labels.push(format!("stage={}", stage.map(gen::fname).unwrap_or("none")));
                 t.labels.push(format!("exit={:?}{}", exit, if *noutf8 { "+NOUTF8" } else { "" }));
                 t.labels.push(format!("fileops={fo}"));
